@@ -149,6 +149,8 @@ def _run_case(ex, contract, func, owner, kinds, label):
     for g, gk in contract.ghost.get("vars", {}).items():
         st.env[g] = ex.fresh_value(st, gk, g)
         ex.inputs[g] = st.env[g]
+    for lem in contract.lemmas:
+        st.assume(lemma_axiom(ex, lem, st))
     pre = st.fork()
     ex.entry_params = dict(st.env)
     ex.old_env = ex.spec_env(pre)
@@ -250,7 +252,16 @@ def concretize(model, v, heap=None):
     if isinstance(v, VData):
         return str(ev(v.e))
     if isinstance(v, VFloat):
-        return str(ev(v.e))
+        c = ev(v.cls).as_long()
+        if c == 1:
+            return float("nan")
+        if c in (2, 3):
+            return float("inf") if c == 2 else float("-inf")
+        r = ev(v.r)
+        try:
+            return float(r.numerator_as_long()) / float(r.denominator_as_long())
+        except Exception:
+            return str(r)
     if isinstance(v, VTuple):
         return [concretize(model, x) for x in v.items]
     if isinstance(v, VSeq):
@@ -331,4 +342,46 @@ def discharge_all(ex, timeout_ms, jobs=1):
             if os.environ.get("PYVC_DEBUG"):
                 print("   [%s] %s %.2fs %s" % (d["status"], d["id"], d["time_s"], d["path"][-80:]), flush=True)
     _POOL_STATE.clear()
+    return out
+
+
+def _lemma_consts(ex, lem, st, prefix):
+    names = {}
+    for p, kind in lem.params.items():
+        if kind == "self":
+            names[p] = st.env.get("self") or st.alloc(HObj(object, {}))
+        else:
+            names[p] = ex.fresh_value(st, kind, "%s.%s" % (prefix, p))
+    return names
+
+
+def lemma_axiom(ex, lem, st):
+    names = _lemma_consts(ex, lem, st, "lemma." + lem.name)
+    body = ex.spec_bool(lem.statement, st, names)
+    consts = [v.e for p, v in names.items() if hasattr(v, "e")]
+    return z3.ForAll(consts, body) if consts else body
+
+
+def prove_lemma(lem, spec_funcs, adts, timeout_ms=10000):
+    """structural induction on lem.induction_on: one obligation per constructor"""
+    out = []
+    ex = Executor({}, spec_funcs, adts)
+    ex.cur_func = "lemma:" + lem.name
+    adt = adts[lem.params[lem.induction_on]]
+    for ctor, _cls, fields in adt.variants:
+        st = State()
+        names = _lemma_consts(ex, lem, st, lem.name)
+        fvals = []
+        for f, srt in fields:
+            v = ex.fresh_value(st, lem.params[lem.induction_on] if srt == "self" else srt, "%s.%s.%s" % (lem.name, ctor, f))
+            fvals.append(v)
+            if srt == "self":
+                ih = dict(names)
+                ih[lem.induction_on] = v
+                st.assume(ex.spec_bool(lem.statement, st, ih))      # induction hypothesis
+        names[lem.induction_on] = VData(adt.ctor(ctor)(*[v.e for v in fvals]) if fvals else adt.ctor(ctor), adt)
+        goal = ex.spec_bool(lem.statement, st, names)
+        ob = Obligation("lemma:" + lem.name, "induction", ctor, st.pc, goal, ctor, "lemma %s, case %s" % (lem.statement, ctor))
+        ex.inputs = {}
+        out.append(discharge(ob, ex, timeout_ms))
     return out
